@@ -118,7 +118,9 @@ func (h *harness) sink(c *Case, outs []Out, hash string) {
 		h.samples[c.Part] = append(h.samples[c.Part], map[string]any{"part": c.Part, "entry": c.Entry, "input": short(c.ID, 200), "outcomes": summarise(outs)})
 	}
 	if hash != "" && c.Part == "b-malformed" {
-		key := c.Entry + ":" + hash
+		// the IR is what every later stage sees: identical IRs (whatever the
+		// format they were parsed from) are run once, from the smallest document
+		key := hash
 		if old, ok := h.reach[key]; !ok || c.Size < old.Size || c.Size == old.Size && c.ID < old.ID {
 			h.reach[key] = c
 		}
@@ -220,10 +222,18 @@ func inputLine(format string) (line string, file string) {
 	panic("format " + format)
 }
 
+var thoroughTier bool
+
 func pipelineCases(part, format, name, doc string, extra map[string]string, sizeBase int) []*Case {
 	var out []*Case
 	in, file := inputLine(format)
 	for mi, m := range modes {
+		if (strings.HasPrefix(name, "G:") || !thoroughTier) && m.name == "types+builders" {
+			// types alone and everything on; the middle mode only matters when a
+			// converter jenny crashes before a builder jenny has run: thorough tier,
+			// special shapes only
+			continue
+		}
 		langs := programmingLanguagesBlock
 		if m.all7 {
 			langs = languagesBlock
@@ -378,7 +388,13 @@ func stageOf(entry string, o Out) string {
 		return o.St
 	}
 	e := o.Err
-	syntax := []string{"invalid character", "unexpected end of JSON", "unexpected EOF", "EOF", "yaml:", "cannot unmarshal", "expected ", "illegal ", "not terminated", "missing ',", "invalid JSON", "failed to unmarshal", "error converting YAML", "looking for beginning of"}
+	// type errors of the decoding stage come after the syntax stage
+	for _, s := range []string{"cannot unmarshal", "not found in type", "cannot construct"} {
+		if strings.Contains(e, s) {
+			return "rejected-by-decoder-types"
+		}
+	}
+	syntax := []string{"invalid character", "unexpected end of JSON", "unexpected EOF", "EOF", "yaml: ", "expected ", "illegal ", "not terminated", "missing ',", "invalid JSON", "error converting YAML", "looking for beginning of"}
 	for _, s := range syntax {
 		if strings.Contains(e, s) {
 			return "rejected-as-syntax"
@@ -393,6 +409,7 @@ func main() {
 	r := vx.Start("C04")
 	maybeServeWorker()
 	r.PerKindSmallest = true
+	thoroughTier = r.Thorough()
 
 	scratch, err := os.MkdirTemp("/var/tmp", "verif.c04.")
 	if err != nil {
@@ -410,9 +427,12 @@ func main() {
 		os.Exit(code)
 	}
 
-	budget := 200 * time.Second
+	// Safety net only (a loaded machine): the quick tier needs ~15 CPU-minutes,
+	// i.e. 1.5-3 min wall on 16 cores. A part cut by the deadline is reported as
+	// exhaustive:false, never as a failure.
+	budget := 10 * time.Minute
 	if r.Thorough() {
-		budget = 22 * time.Minute
+		budget = 40 * time.Minute
 	}
 	if v := os.Getenv("VERIF_C04_BUDGET_S"); v != "" {
 		var s int
@@ -518,6 +538,9 @@ func main() {
 		var rc []*Case
 		for _, k := range keys {
 			c := h.reach[k]
+			if strings.Contains(c.ID, "/shape:") && strings.Contains(c.ID, "/seed#") {
+				continue // the IR of an unmodified shape: already run in part (a), in every mode
+			}
 			in, file := inputLine(c.Entry)
 			files := map[string]string{file: string(c.Req.Data), "pipeline.yaml": pipelineYAML(in, "", true, true, true, false, languagesBlock)}
 			rc = append(rc, &Case{Part: "a-reach", Entry: c.Entry, ID: "r" + c.ID[1:], Size: c.Size + 5, Req: Req{Op: "config", Files: files}, Input: string(c.Req.Data)})
